@@ -157,6 +157,15 @@ def calibration(item):
         for q in range(n):
             d = code.get_deformation(tuple(code.qubit_coordinates[q]), nd, **(ndkw or {}))
             Dt.append([d['X'], d['Y'], d['Z']])
+    # the noise model object has already served OTHER codes with the same
+    # number of qubits (as it does when one specification sweeps several codes)
+    for oname, osize in (('RotatedPlanar2DCode', (2, 2)), ('Planar3DCode', (1, 2, 2)),
+                         ('RotatedToric3DCode', (2, 2, 1)), ('Planar2DCode', (2, 2)),
+                         ('RotatedPlanar2DCode', (1, 5)), ('RotatedPlanar2DCode', (5, 1))):
+        other = codes.build(oname, osize)
+        if other.n == n and (oname, tuple(osize)) != (cname, tuple(size)):
+            em.probability_distribution(other, p)
+            em.generate(other, p, rng=np.random.default_rng(0))
     # failure table: outcome of a trial as a function of the error alone
     stub = _Model()
     succ = []
